@@ -128,6 +128,25 @@ func (r *Run) discharge(fr *FuncResult) []*OblResult {
 		}
 		res[idx[o]] = &OblResult{Obl: o, Verdict: v, OK: ok}
 	})
+	// an obligation that no solver decided in time is retried with a larger budget and little parallelism before it
+	// is reported: a loaded machine must not turn into alarms (a refutation, sat, is never retried)
+	var again []*Obligation
+	for _, o := range todo {
+		if r0 := res[idx[o]]; !o.Cover && !r0.OK && r0.Verdict.Status != "sat" {
+			again = append(again, o)
+		}
+	}
+	if len(again) > 0 && os.Getenv("GOVC_NORETRY") == "" {
+		ParallelDo(len(again), 3, func(i int) {
+			o := again[i]
+			v := Decide(o.Query(true), r.Dir, fileTag(o.Name)+".retry", 4*r.Timeout, r.Seed+1)
+			if v.Status == "unsat" {
+				res[idx[o]] = &OblResult{Obl: o, Verdict: v, OK: true}
+			} else if v.Status == "sat" {
+				res[idx[o]] = &OblResult{Obl: o, Verdict: v, OK: false}
+			}
+		})
+	}
 	return res
 }
 
